@@ -895,6 +895,11 @@ impl MerkleTree {
                     instructions.push(instruction);
                 }
                 Either::Right(node) => {
+                    if !instructions.is_empty() {
+                        // The length of a root before this one is not known yet, `bytes` is not
+                        // relative to this root: only collect what else has to be read.
+                        continue;
+                    }
                     if bytes == node.length {
                         return Ok(Either::Right(root));
                     }
